@@ -209,3 +209,61 @@ func BuildRef(mods *pbsubstreams.Modules, output string, stop uint64, segSize ui
 	}
 	return ref, nil
 }
+
+// ChainBlock identifies one block of an explicit chain.
+type ChainBlock struct {
+	Num    uint64
+	ID     string
+	Parent string
+}
+
+// RefChainResult is the sequential reference over an explicit chain.
+type RefChainResult struct {
+	Payload map[string][]byte   // block id -> output payload
+	Stores  map[string]StoreSnap // after the last block
+}
+
+// RunRefChain runs REF-LINEAR over canonical blocks L..base followed by the
+// given chain suffix (every block fed as new+final, nothing undone).
+func RunRefChain(mods *pbsubstreams.Modules, output string, segSize uint64, base uint64, suffix []ChainBlock) (*RefChainResult, error) {
+	top := base
+	if len(suffix) > 0 {
+		top = suffix[len(suffix)-1].Num
+	}
+	rp, err := NewRefPipe(mods, output, top+1, segSize, 0)
+	if err != nil {
+		return nil, err
+	}
+	out := &RefChainResult{Payload: map[string][]byte{}}
+	feed := func(num uint64, id, parent string) error {
+		bref := bstream.NewBlockRef(id, num)
+		obj := &Obj{Cur: &bstream.Cursor{Step: bstream.StepNewIrreversible, Block: bref, LIB: bref, HeadBlock: bref}, StepType: bstream.StepNewIrreversible}
+		resps, err := rp.Step(MakeBlock(num, id, parent, num), obj)
+		if err != nil {
+			return fmt.Errorf("ref chain: block %d %s: %w", num, id, err)
+		}
+		for _, r := range resps {
+			if d := r.GetBlockScopedData(); d != nil && d.Output != nil && d.Output.MapOutput != nil {
+				out.Payload[id] = d.Output.MapOutput.Value
+			}
+		}
+		return nil
+	}
+	for n := rp.L; n <= base; n++ {
+		parent := ""
+		if n > 0 {
+			parent = BlockID(n - 1)
+		}
+		if err := feed(n, BlockID(n), parent); err != nil {
+			return nil, err
+		}
+	}
+	for _, b := range suffix {
+		if err := feed(b.Num, b.ID, b.Parent); err != nil {
+			return nil, err
+		}
+	}
+	out.Stores = rp.Stores()
+	native.TakeLog()
+	return out, nil
+}
